@@ -117,8 +117,15 @@ def replay_point(case, env, meta, tol=1e-9):
             h = dict(hist)
             h[n] = vals[n]
             shared.append([h])
-    for history in [[hist], [vals], [hist, vals]] + shared:
-        _, outs_h, J_h = partials.real_eval(case, vals, history=history)
+        # ... and, for caches keyed on all inputs but one, another point that differs from the current one in exactly one input
+        for n in r0.in_names:
+            h = dict(vals)
+            h[n] = hist[n]
+            shared.append([h])
+    # (each history with and without a linearisation after its runs: an approximated linearisation re-runs compute and
+    # may refresh a cache that a sequence of plain run_model calls leaves stale)
+    for history, hlin in [(h_, True) for h_ in [[hist], [vals], [hist, vals]] + shared] + ([(h_, False) for h_ in [[hist]] + shared] if meta["what"] == "output" else []):
+        _, outs_h, J_h = partials.real_eval(case, vals, history=history, history_linearize=hlin, linearize=(meta["what"] != "output"))
         if meta["what"] == "output":
             a, b = np.asarray(outs_f[meta["of"]], dtype=float), np.asarray(outs_h[meta["of"]], dtype=float)
         else:
